@@ -386,12 +386,12 @@ func (m *Model) apply(fn string, args ...mval) mval {
 // ---------- Go value synthesis ----------
 
 type synth struct {
-	m      *Model
-	q      *Query
-	pkg    *types.Package
+	m       *Model
+	q       *Query
+	pkg     *types.Package
 	imports map[string]string
-	budget int
-	fail   string
+	budget  int
+	fail    string
 }
 
 func (s *synth) qual(p *types.Package) string {
